@@ -136,6 +136,27 @@ Fixpoint uniq_items (v : value) : bool :=
   end.
 End DistIO.
 
+(* ---- what the add/remove rewrite of a nested run needs (observed on every recorded pairing call) ----
+   the removed levels have pairwise different paths, no two removed (added) levels report the same value under the
+   same parent, a removed level has no t2, an added level no t1 *)
+Definition kv_eqb (a b : pystr * option value) : bool := pystr_eqb (fst a) (fst b) && ovalue_eqb (snd a) (snd b).
+Fixpoint nodup_by {A} (eqb : A -> A -> bool) (l : list A) : bool :=
+  match l with
+  | [] => true
+  | x :: r => negb (existsb (eqb x) r) && nodup_by eqb r
+  end.
+Definition kv_of (e : entry) : pystr * option value := (pk e, item_o e).
+Definition shape_ok (e : entry) : bool :=
+  match ekind e with
+  | KIterRem => match et2 e with None => true | Some _ => false end
+  | KIterAdd => match et1 e, et2 e with None, Some _ => true | _, _ => false end
+  | _ => true
+  end.
+Definition mutual_ok (es : list entry) : bool :=
+  let rm := filter (is_kind KIterRem) es in
+  let ad := filter (is_kind KIterAdd) es in
+  nodup_by path_eqb (map ep1 rm) && nodup_by kv_eqb (map kv_of rm) && nodup_by kv_eqb (map kv_of ad) && forallb shape_ok es.
+
 (* the guard of the range theorem: repetitions are not reported, or nothing is paired, or t1 has no
    repeated items *)
 Definition io_guard (H : pystr -> pystr) (c : cfg) (rep : bool) (pairs : path -> list (nat * nat)) (t1 : value) : Prop :=
